@@ -2,10 +2,11 @@
    Directives used: those of ExtrOcamlBasic only (bool, option, unit, list, prod, sumbool, sumor);
    no Extract Constant; Z / positive stay as extracted inductives. *)
 Require Import ExtrOcamlBasic.
-Require Import Base Fixed Panic Curve Bank BankOps.
+Require Import Base Fixed Panic Curve Bank BankOps TransferFee.
 Extraction Language OCaml.
 Extraction "extract/model.ml"
   p_pause p_unpause p_unpause_if_expired p_is_expired p_can_pause c_is_expired ix_propagate
   ix_panic_pause ix_panic_unpause ix_panic_unpause_permissionless is_protocol_paused mkP
   ir_validate calc_interest_rate mpc legacy_curve
-  bstep brun la_empty mkBW accrual_state_changes remaining_deposit_capacity.
+  bstep brun la_empty mkBW accrual_state_changes remaining_deposit_capacity
+  pre_fee_deposit_amount calculate_fee urun.
